@@ -7,6 +7,7 @@
    The skeleton run stops at a `mark` (outcome depends on coin selection / fees / script engine / node):
    class `deep`. The classes listed in `deepSet` are reported as `deep` as well (same table as the harness). -/
 import MW.Model.Api
+import MW.Model.ApiLedger
 import MW.Model.Amount
 import MW.Drv.Led
 namespace MW.Drv.Api
@@ -217,18 +218,13 @@ def vget (σ : State) (x : String) : Nat := σ (V x)
 
 -- ------------------------------------------------------------------ ledger lookups (txmgr as seen by the API)
 
-/-- TxStore.ExistsTx: an unspent of the wallet in use, else any credit with that outpoint -/
-def existsTx (st : St) (tx : String) (vout : Nat) : Bool :=
-  match st.led.store.credits.find? (fun e => e.1.tx = tx && e.1.idx = vout) with
-  | none => false
-  | some e =>
-    -- the transaction is re-read from the node at the recorded location: it must still be there
-    match AMap.get st.led.store.txrecs (tx, e.1.blk) with
-    | none => false
-    | some loc =>
-      match st.led.node.txByLoc e.1.blk.height loc with
-      | some t => t.id = tx
-      | none => false
+/-- TxStore.ExistsTx: the model function the contract theorems are about (MW.Model.ApiLedger.existsTx: an unspent
+    of the wallet in use, else any credit with that outpoint; the transaction is re-read from the node at the
+    recorded location and must carry the requested id) -/
+def existsTxM (st : St) (tx : String) (vout : Nat) : Option (Tx × BlockMeta) :=
+  Model.ApiLedger.existsTx st.led.store st.led.node (st.cur.getD "") tx vout
+
+def existsTx (st : St) (tx : String) (vout : Nat) : Bool := (existsTxM st tx vout).isSome
 
 def pendingTx (st : St) (tx : String) : Option Tx := AMap.get st.led.store.pending tx
 
@@ -523,11 +519,9 @@ def oracle (st : St) (r : Req) : Oracle := fun f σ =>
   | "spent[*prevOut] exists" =>          -- the same (txid, vout) earlier in the request's input list
     [b2n ((r.inputs.take (vget σ "cur.in")).any (fun i => i.1 == (curInput r σ).1 && i.2 == (curInput r σ).2))]
   | "w.txStore.ExistsTx" =>
-    if existsTx st curIn.1 curIn.2 then [1, 1, 0, 0, nOutsOf st curIn.1] else [0, 0, Model.Api.E.notFound, 1, 0]
+    Model.ApiLedger.existsTxAnswer Model.Api.E.notFound (existsTxM st curIn.1 curIn.2)
   | "w.txStore.ExistUnminedTx" =>
-    match pendingTx st curIn.1 with
-    | some t => [1, 0, t.outs.length]
-    | none => [0, Model.Api.E.notFound, 0]
+    Model.ApiLedger.existUnminedAnswer Model.Api.E.notFound (pendingTx st curIn.1)
   | "w.txStore.ExistsUtxo" =>
     match existsUtxo st curIn.1 curIn.2 with
     | 0 => [1, 0]
